@@ -167,7 +167,7 @@ def obligations(tier):
         bounds = dict(skeleton=[l.decode("latin-1") for l in lines] + [END.decode()], pieces=cuts + 1,
                       eol_assignments="every line independently CR/LF/CRLF" if mode == "all"
                       else "one base kind for all lines, at most one line with another kind")
-        out.append(Ob(name, h, dict(lines=list(lines), mode=mode, cuts=cuts), budget=400 if quick else 3000,
+        out.append(Ob(name, h, dict(lines=list(lines), mode=mode, cuts=cuts), budget=900 if quick else 6000,
                       covers=["agrees", "events", "real-split"], bounds=bounds))
 
     for nm, lines in SHORT3.items():
